@@ -172,20 +172,32 @@ func mergeBuild(c any, o any, path tree.Path) (any, error) {
 }
 
 func mergeDependsOn(c any, o any, path tree.Path) (any, error) {
-	right := convertIntoMapping(c, map[string]any{
+	right, err := convertIntoMapping(c, map[string]any{
 		"condition": "service_started",
 		"required":  true,
-	})
-	left := convertIntoMapping(o, map[string]any{
+	}, path)
+	if err != nil {
+		return nil, err
+	}
+	left, err := convertIntoMapping(o, map[string]any{
 		"condition": "service_started",
 		"required":  true,
-	})
+	}, path)
+	if err != nil {
+		return nil, err
+	}
 	return mergeMappings(right, left, path)
 }
 
 func mergeNetworks(c any, o any, path tree.Path) (any, error) {
-	right := convertIntoMapping(c, nil)
-	left := convertIntoMapping(o, nil)
+	right, err := convertIntoMapping(c, nil, path)
+	if err != nil {
+		return nil, err
+	}
+	left, err := convertIntoMapping(o, nil, path)
+	if err != nil {
+		return nil, err
+	}
 	return mergeMappings(right, left, path)
 }
 
@@ -252,10 +264,16 @@ func mergeUlimit(_ any, o any, p tree.Path) (any, error) {
 
 func mergeIPAMConfig(c any, o any, path tree.Path) (any, error) {
 	var ipamConfigs []any
-	for _, original := range c.([]any) {
-		right := convertIntoMapping(original, nil)
-		for _, override := range o.([]any) {
-			left := convertIntoMapping(override, nil)
+	for i, original := range c.([]any) {
+		right, err := convertIntoMapping(original, nil, path.Next(fmt.Sprintf("[%d]", i)))
+		if err != nil {
+			return nil, err
+		}
+		for j, override := range o.([]any) {
+			left, err := convertIntoMapping(override, nil, path.Next(fmt.Sprintf("[%d]", j)))
+			if err != nil {
+				return nil, err
+			}
 			if left["subnet"] != right["subnet"] {
 				// check if left is already in ipamConfigs, add it if not and continue with the next config
 				if !slices.ContainsFunc(ipamConfigs, func(a any) bool {
@@ -285,23 +303,29 @@ func mergeIPAMConfig(c any, o any, path tree.Path) (any, error) {
 	return ipamConfigs, nil
 }
 
-func convertIntoMapping(a any, defaultValue map[string]any) map[string]any {
+func convertIntoMapping(a any, defaultValue map[string]any, p tree.Path) (map[string]any, error) {
 	switch v := a.(type) {
 	case map[string]any:
-		return v
+		return v, nil
 	case []any:
 		converted := map[string]any{}
 		for _, s := range v {
+			key, ok := s.(string)
+			if !ok {
+				return nil, fmt.Errorf("%s must be a mapping or a list of strings", p)
+			}
 			if defaultValue == nil {
-				converted[s.(string)] = nil
+				converted[key] = nil
 			} else {
 				// Create a new map for each key
-				converted[s.(string)] = copyMap(defaultValue)
+				converted[key] = copyMap(defaultValue)
 			}
 		}
-		return converted
+		return converted, nil
+	case nil:
+		return map[string]any{}, nil
 	}
-	return nil
+	return nil, fmt.Errorf("%s must be a mapping or a list of strings", p)
 }
 
 func copyMap(m map[string]any) map[string]any {
